@@ -99,15 +99,18 @@ ObsClause(e) ==
              ELSE IF ~e.raised THEN "missing-raise"
              ELSE IF e.exc = "OverflowError" /\ e.fn \in {"exp", "expm1"} /\ \E i \in 1..Len(x.vals) : Exceeds(NumRat(x.vals[i]), 709) THEN ""
              \* math.log & co. refuse non-positive numbers themselves (log1p: numbers <= -1)
-             ELSE IF e.exc = "ValueError" /\ e.be = "math" /\ e.fn \in {"log", "log10", "log2", "log1p"} /\ NumRat(x.vals[1]).s < 0 THEN ""
+             ELSE IF e.exc = "ValueError" /\ e.be \in {"math", "mathfirst"} /\ e.fn \in {"log", "log10", "log2", "log1p"} /\ NumRat(x.vals[1]).s <= 0 THEN ""
              ELSE "unexpected-raise"
       [] OTHER -> "unknown-event"
 
+\* every operation leaves the quantities it was given as they were (the actions say UNCHANGED qs for the
+\* observations, and a conversion only appends): the binding reports whether that held
+FrameOK(e) == ("frame" \in DOMAIN e) => e.frame
 TStep ==
     /\ verdict = "none" /\ pos <= Len(Traces[tid])
     /\ IF Ev.ev = "end"
        THEN verdict' = "accept" /\ UNCHANGED vars
-       ELSE Act(Ev) /\ ObsClause(Ev) = "" /\ verdict' = "none"
+       ELSE Act(Ev) /\ FrameOK(Ev) /\ ObsClause(Ev) = "" /\ verdict' = "none"
     /\ pos' = pos + 1 /\ UNCHANGED tid
 
 TReject ==
@@ -121,6 +124,7 @@ Clause ==
     ELSE LET e == Ev IN
       IF e.ev = "error" THEN "unexpected-" \o e.exc
       ELSE IF ~ENABLED Act(e) THEN "model:" \o e.ev
+      ELSE IF ~FrameOK(e) THEN "argument-changed"
       ELSE ObsClause(e)
 
 Verdict == verdict # "none" =>
